@@ -839,4 +839,104 @@ theorem mergeItemsA_eq' (a : List Item) : mergeItemsA a = mergeItems a := by
   have := outerA_spec a.length [] a (Nat.le_refl _)
   simpa using this
 
+/-! ### `Sort()` on an already sorted and merged table changes nothing -/
+
+theorem scan_noop : ∀ (todo : List Item) (cur : Item) (done : List Item) (m : Nat),
+    (∀ x ∈ todo, x.2 ≠ 0 ∧ x.2 < cur.1) → scan cur done todo m = (cur, done ++ todo, m) := by
+  intro todo
+  induction todo with
+  | nil => intro cur done m _; simp [scan]
+  | cons x t ih =>
+    intro cur done m h
+    have hx := h x (by simp)
+    unfold scan
+    have h1 : (x.2 == 0) = false := by simp [hx.1]
+    have h2 : ¬ x.2 ≥ cur.1 := by omega
+    simp only [h1, Bool.false_eq_true, if_false, h2]
+    rw [ih cur (done ++ [x]) m (fun y hy => h y (by simp [hy]))]
+    simp
+
+theorem mergeFrom_noop : ∀ (fuel : Nat) (l : List Item), l.length ≤ fuel → (∀ a ∈ l, Good a) →
+    l.Pairwise (fun a b => b.2 < a.1) → mergeFrom fuel l = (l, 0) := by
+  intro fuel
+  induction fuel with
+  | zero => intro l _ _ _; rfl
+  | succ fuel ih =>
+    intro l hl hg hs
+    cases l with
+    | nil => rfl
+    | cons cur rest =>
+      rw [List.pairwise_cons] at hs
+      simp only [List.length_cons] at hl
+      have hc := hg cur (by simp)
+      unfold Good at hc
+      have hm : isMarkEnd cur.2 = false := by unfold isMarkEnd; simp; omega
+      unfold mergeFrom
+      simp only [hm, Bool.false_eq_true, if_false]
+      have hsc : scan cur [] rest 0 = (cur, rest, 0) := by
+        have := scan_noop rest cur [] 0 (fun x hx => by
+          have gx := hg x (by simp [hx]); unfold Good at gx
+          exact ⟨by omega, hs.1 x hx⟩)
+        simpa using this
+      rw [hsc]
+      simp only []
+      rw [ih rest (by omega) (fun a ha => hg a (by simp [ha])) hs.2]
+      simp
+
+theorem strict_of_table {t : List Item} (hg : ∀ a ∈ t, Good a) (hs : t.Pairwise (fun a b => b.1 ≤ a.1))
+    (hd : t.Pairwise Dis) : t.Pairwise (fun a b => b.2 < a.1) := by
+  refine List.Pairwise.imp_of_mem ?_ (hs.and hd)
+  intro a b ha hb h
+  have ga := hg a ha; have gb := hg b hb
+  have na := good_ne_marker ga; have nb := good_ne_marker gb
+  unfold Good at ga gb
+  rcases h.2 with h' | h' | h' | h'
+  · exact absurd h' na
+  · exact absurd h' nb
+  · exact h'
+  · have := h.1; omega
+
+theorem pairwise_mem_cases {α : Type} {R : α → α → Prop} : ∀ {l : List α}, l.Pairwise R → ∀ a ∈ l, ∀ b ∈ l,
+    a = b ∨ R a b ∨ R b a := by
+  intro l
+  induction l with
+  | nil => intro _ a ha; simp at ha
+  | cons x t ih =>
+    intro h a ha b hb
+    rw [List.pairwise_cons] at h
+    simp only [List.mem_cons] at ha hb
+    rcases ha with ha | ha <;> rcases hb with hb | hb
+    · exact Or.inl (ha.trans hb.symm)
+    · subst ha; exact Or.inr (Or.inl (h.1 b hb))
+    · subst hb; exact Or.inr (Or.inr (h.1 a ha))
+    · exact ih h.2 a ha b hb
+
+/-- an admissible sort cannot reorder a table whose starts are strictly descending -/
+theorem sort_fixes_strict {sort : List Item → List Item} (hsort : IsSort sort) {t : List Item}
+    (hg : ∀ a ∈ t, Good a) (hst : t.Pairwise (fun a b => b.2 < a.1)) : sort t = t := by
+  obtain ⟨p, s⟩ := hsort t
+  have hs' : t.Pairwise (fun a b => b.1 ≤ a.1) := by
+    refine List.Pairwise.imp_of_mem ?_ hst
+    intro a b _ hb h
+    have gb := hg b hb; unfold Good at gb; omega
+  refine List.Perm.eq_of_pairwise ?_ s hs' p
+  intro a b ha hb h1 h2
+  have ha' := p.mem_iff.mp ha
+  rcases pairwise_mem_cases hst a ha' b hb with e | h | h
+  · exact e
+  · have gb := hg b hb; unfold Good at gb; omega
+  · have ga := hg a ha'; unfold Good at ga; omega
+
+theorem sortTable_idem (sort1 sort2 sort3 sort4 : List Item → List Item) (h1 : IsSort sort1) (h2 : IsSort sort2)
+    (h3 : IsSort sort3) (h4 : IsSort sort4) (l : List Item) (hg : ∀ a ∈ l, Good a) :
+    sortTable sort3 sort4 (sortTable sort1 sort2 l) = sortTable sort1 sort2 l := by
+  obtain ⟨t1, t2, t3, _⟩ := table_spec sort1 sort2 h1 h2 l hg
+  have hst := strict_of_table t1 t2 t3
+  generalize sortTable sort1 sort2 l = t at *
+  unfold sortTable mergeItems
+  simp only []
+  rw [sort_fixes_strict h3 t1 hst, mergeFrom_noop t.length t (Nat.le_refl _) t1 hst]
+  simp only [Nat.sub_zero]
+  rw [sort_fixes_strict h4 t1 hst, List.take_length]
+
 end BfeVerif.C19
